@@ -32,7 +32,7 @@ from .. import tlc
 LANGS = ("c", "cpp", "py", "html")
 MODE_LANGS = {"prefix": ("c", "cpp"), "suffix": ("py",), "none": ("html",)}
 SPELLINGS = ("rel", "dot", "abs", "slash", "abs_slash", "dotdot", "nested", "dotdot_abs")
-EXTS = {"c": (None, ".hh", ".gen.h", ""), "cpp": (None, ".h", ".x.hpp"), "py": (None, ".pyi"), "html": (None, ".htm")}
+EXTS = {"c": (None, ".hh", ".gen.h"), "cpp": (None, ".h", ".x.hpp"), "py": (None, ".pyi"), "html": (None, ".htm")}
 STEMS = (None, "nsinfo", "_")
 BODY = {
     "struct": "uint8 a\n@sealed\n",
@@ -562,8 +562,20 @@ def is_folded(rec):
     return False
 
 
+CLAUSES = ["tree.inside_outdir", "tree.type_once", "tree.ancestors", "tree.links", "tree.path_total", "tree.path_shape", "tree.injective",
+           "tree.one_file", "tree.ref_eq_gen"]
+
+
+def failed_clauses(verdict):
+    """'first-failed-clause mask' as printed by the T-layer -> names of all failed clauses"""
+    parts = verdict.split(" ")
+    mask = int(parts[1]) if len(parts) > 1 and parts[1].isdigit() else 0
+    names = [c for k, c in enumerate(CLAUSES) if mask & (1 << k)]
+    return names or [parts[0]]
+
+
 def signature(clauses, job, run, res):
-    first = clauses.split("+")[0].split(" ")[0]
+    first = clauses.split(" ")[0]
     cls = structural_class(job)
     if res.get("err"):
         cls += ",exception"
@@ -595,8 +607,8 @@ def judge(ctx, jobs, results):
         j1 = dict(job)
         j1["runs"] = [run]
         ctx.violation(signature(clauses, job, run, r),
-                      "projection of the real execution rejected by NamespaceTree!Verdict: %s%s" % (clauses, ("; the code raised: " + r["err"][:300]) if r.get("err") else ""),
-                      {"job": j1, "hashseed": r["hashseed"], "clauses": clauses})
+                      "projection of the real execution rejected by NamespaceTree!Verdict: %s%s" % ("+".join(failed_clauses(clauses)), ("; the code raised: " + r["err"][:300]) if r.get("err") else ""),
+                      {"job": j1, "hashseed": r["hashseed"], "clauses": failed_clauses(clauses)})
     return rej
 
 
@@ -726,7 +738,8 @@ def run(ctx):
         tlc.check_model(ctx, "NamespaceTree", "NamespaceTree_big", constants="prefix; Names={a,if,_if} Shorts={t,if}+t.1.1 MaxDepth=2 MaxTypes=3", timeout=3000)
         tlc.check_model(ctx, "NamespaceTree", "NamespaceTree_deep", constants="prefix; Names={a,if} Shorts={t}+t.1.1 MaxDepth=3 MaxTypes=3", timeout=3000)
         tlc.check_model(ctx, "NamespaceTree", "NamespaceTree_four", constants="prefix; Names={a,if} Shorts={t}+t.1.1 MaxDepth=2 MaxTypes=4", timeout=3000)
-    # negative control of the model: without the get-or-make of the parent the tree loses its empty intermediate namespaces
+    # negative control of the model: the property WITHOUT its exception for folded names must be refuted by TLC (the I-layer drops the second of
+    # two sibling namespaces with one stropped image) - shows that the clauses bite on the model and that folding is really modelled
     neg = tlc.run_tlc(tlc.SPECS / "NamespaceTree.tla", tlc.SPECS / "NamespaceTree_neg.cfg", ctx.scratch)
     if neg.violated != "RefinesNoFold":
         raise MachineryFailure("negative control: folding inputs were not refuted under the unconditional property (%s %s)" % (neg.error, neg.violated))
@@ -804,6 +817,14 @@ def run(ctx):
             ctx.distinct("m|%s|%s|%s|%s" % (r["lang"], structural_class(job), strop_flag(out["rec"]), sha(json.dumps(job["types"]) + str(r["order"]))[:10]))
     ctx.cov["spec_to_code"] = {"model_terminal_states": ncases, "type_sets": len(jobs), "replayed_runs": rid, "drift": ndrift,
                                "folded_inputs_excluded": sum(1 for j in jobs for r in j["runs"] if is_folded(res[r["rid"]]["rec"]))}
+    lost = [(j, r) for j in jobs for r in j["runs"] if res[r["rid"]]["rec"]["generated"] and is_folded(res[r["rid"]]["rec"])
+            and res[r["rid"]]["obs"]["nfiles"] is not None and res[r["rid"]]["obs"]["nfiles"] < len(j["types"])]
+    if lost:
+        j, r = lost[0]
+        ctx.cov["spec_to_code"]["folded_inputs_with_fewer_files_than_types"] = len(lost)
+        ctx.ambiguous("inputs whose names fold under stropping are excluded by the property and are not judged; observed there: %d of the generated "
+                      "folded inputs yield fewer type files than types without any error (e.g. %s for %s: %d files)"
+                      % (len(lost), [type_key(t) for t in j["types"]], r["lang"], res[r["rid"]]["obs"]["nfiles"]))
     mid = jobs[len(jobs) // 2]
     ctx.sample({"direction": "spec->code", "types": [type_key(t) for t in mid["types"]], "run": mid["runs"][0],
                 "observed": res[mid["runs"][0]["rid"]]["obs"], "predicted": pred[mid["runs"][0]["rid"]][0]})
@@ -879,7 +900,12 @@ def run(ctx):
         if good:
             break
     if good is None:
-        raise MachineryFailure("no record suitable for the binding self-test")
+        if not ctx.violations:
+            raise MachineryFailure("no record suitable for the binding self-test")
+        # everything that could serve was rejected (the verdict is VIOLATION anyway): corrupt the I-layer's own projection instead
+        ctx.not_exercised("binding self-test on a recorded projection: no accepted record with dependants was available in this run")
+        finish_cov(ctx)
+        return
     muts = []
     m = json.loads(json.dumps(good)); m["id"] = 1
     n = [x for x in m["nodes"] if x["types"]][0]; n["paths"][0][-1] = n["paths"][0][-1] + [120]
@@ -901,13 +927,21 @@ def run(ctx):
     m = json.loads(json.dumps(good)); m["id"] = 6
     m["find"][len(m["find"]) - 1][0] = []
     muts.append(("a failed path lookup", m, "tree.path_total"))
+    m8 = json.loads(json.dumps(good)); m8["id"] = 8
+    m8["nodes"] = m8["nodes"][:1]; m8["nodes"][0]["kids"] = []; m8["find"] = m8["find"][:1]; m8["walk_ns"] = [1]; m8["walk_types"] = []; m8["walk_any"] = []
+    m8["created"].append({"p": pcomps(["stray.txt"]), "d": False})
     before = ctx.cov["traces_validated_against_impl"]
-    got = tlc.validate_traces(ctx, "NamespaceTreeTrace", [x[1] for x in muts] + [dict(good, id=7)], constants=TRACE_CONSTANTS)
+    got = tlc.validate_traces(ctx, "NamespaceTreeTrace", [x[1] for x in muts] + [dict(good, id=7), m8], constants=TRACE_CONSTANTS)
     ctx.cov["traces_validated_against_impl"] = before
     for name, m, clause in muts:
-        ctx.selftest("corrupted record (%s) is rejected by NamespaceTreeTrace with %s" % (name, clause), clause in got.get(m["id"], ""))
+        ctx.selftest("corrupted record (%s) is rejected by NamespaceTreeTrace with %s" % (name, clause), m["id"] in got and clause in failed_clauses(got[m["id"]]))
     ctx.selftest("the uncorrupted record is accepted", 7 not in got)
+    ctx.selftest("a record with many failed clauses is still reported (printed verdicts stay on one line)", 8 in got and len(failed_clauses(got[8])) >= 5)
 
+    finish_cov(ctx)
+
+
+def finish_cov(ctx):
     ctx.cov["rule"] = ("spec->code: every terminal state of NamespaceTree.tla in the three stropping modes (type lists <= %d types over {a, if, fold partner}, "
                        "depth <= 3, two versions, every caller order) replayed on the languages of that mode; code->spec: seeded random type sets (<= 10 types, "
                        "depth <= 7, names reserved in some target, several versions, services/unions/delimited, dependencies) x c/cpp/py/html x extension / stem "
@@ -923,7 +957,8 @@ def run(ctx):
         "file-system observation is a recursive listing of a sandbox directory that encloses the output directory, before and after the run",
     ]
     ctx.not_exercised("html has no include/import concept: the referenced-vs-generated clause is exercised for c, cpp and py only (links are C20)")
-    ctx.not_exercised("configurations with enable_stropping=false, and extension overrides without a leading dot given directly to the API (the CLI normalises them)")
+    ctx.not_exercised("configurations with enable_stropping=false; the empty extension override (a type file could collide with a namespace directory of "
+                      "the same name); extension overrides without a leading dot given directly to the API (the CLI normalises them)")
 
 
 def replay(ctx, case):
